@@ -254,13 +254,16 @@ func (e *eventV1) JSON() []byte {
 }
 
 func (e *eventV1) ToHeaderedJSON() ([]byte, error) {
+	return toHeaderedJSON(e.JSON(), e.Version(), e.EventID())
+}
+
+func toHeaderedJSON(eventJSON []byte, roomVersion RoomVersion, eventID string) ([]byte, error) {
 	var err error
-	eventJSON := e.JSON()
-	eventJSON, err = sjson.SetBytes(eventJSON, "_room_version", e.Version())
+	eventJSON, err = sjson.SetBytes(eventJSON, "_room_version", roomVersion)
 	if err != nil {
 		return []byte{}, err
 	}
-	eventJSON, err = sjson.SetBytes(eventJSON, "_event_id", e.EventID())
+	eventJSON, err = sjson.SetBytes(eventJSON, "_event_id", eventID)
 	if err != nil {
 		return []byte{}, err
 	}
